@@ -119,20 +119,52 @@ def grouped(api: str, data: bytes):
     """-> list of (statements of the sink, metadata visible after the sink was yielded)."""
     var: contextvars.ContextVar = contextvars.ContextVar("frame_metadata")
     out = []
+    made: list = []  # sinks handed out by the caller-supplied factory
 
     def body():
         if api == "generic":
             from pyjelly.integrations.generic import parse as gp  # noqa: PLC0415
+            from pyjelly.integrations.generic.generic_sink import GenericStatementSink  # noqa: PLC0415
 
-            for sink in gp.parse_jelly_grouped(io.BytesIO(data), frame_metadata=var):
+            class MySink(GenericStatementSink):
+                pass
+
+            def factory():
+                made.append(MySink())
+                return made[-1]
+
+            for sink in gp.parse_jelly_grouped(io.BytesIO(data), sink_factory=factory,
+                                               frame_metadata=var):
                 meta = dict(var.get())
+                if not any(sink is m for m in made):
+                    meta["!factory"] = b"sink not from the supplied factory"
                 out.append(([("st", T.norm_st(T.st_from_generic(s))) for s in sink], meta))
         else:
+            import rdflib  # noqa: PLC0415
             from pyjelly.integrations.rdflib import parse as rp  # noqa: PLC0415
 
-            for g in rp.parse_jelly_grouped(io.BytesIO(data), frame_metadata=var):
+            class MyGraph(rdflib.Graph):
+                pass
+
+            class MyDataset(rdflib.Dataset):
+                pass
+
+            def gf():
+                made.append(MyGraph())
+                return made[-1]
+
+            def df():
+                made.append(MyDataset())
+                return made[-1]
+
+            for g in rp.parse_jelly_grouped(io.BytesIO(data), graph_factory=gf,
+                                            dataset_factory=df, frame_metadata=var):
                 meta = dict(var.get())
+                if not any(g is m for m in made):
+                    meta["!factory"] = b"graph not from the supplied factory"
                 out.append((DR._graph_events(g), meta))
+        if len(made) != len(out):
+            out.append(([], {"!factory": f"{len(made)} factory calls for {len(out)} sinks".encode()}))
 
     contextvars.copy_context().run(body)
     return out
